@@ -138,7 +138,13 @@ func (c *clause) compileHeadArg(a Term, env *Env) {
 		}
 		c.bytecode = append(c.bytecode, instruction{opcode: opPop})
 	case *partial:
-		prefix := a.Compound.(list)
+		// The prefix is not always a Go slice: append/3 wraps whatever proper list it was given
+		// (a char list, '.'/2 compounds, another partial list).
+		var prefix []Term
+		iter := ListIterator{List: a.Compound}
+		for iter.Next() {
+			prefix = append(prefix, iter.Current())
+		}
 		c.bytecode = append(c.bytecode, instruction{opcode: opGetPartial, operand: Integer(len(prefix))})
 		c.compileHeadArg(*a.tail, env)
 		for _, arg := range prefix {
